@@ -67,6 +67,15 @@ class Evaluator(object):
                 return +v
             if isinstance(e.op, ast.Not):
                 return not v
+        if isinstance(e, ast.Compare) and len(e.ops) > 1:
+            left = e.left
+            r = True
+            for op, right in zip(e.ops, e.comparators):
+                r = self.ev(ast.Compare(left=left, ops=[op], comparators=[right]), env)
+                if not r:
+                    return r
+                left = right
+            return r
         if isinstance(e, ast.Compare) and len(e.ops) == 1:
             a, b = self.ev(e.left, env), self.ev(e.comparators[0], env)
             ops = {ast.Eq: a == b, ast.NotEq: a != b, ast.Lt: a < b, ast.LtE: a <= b, ast.Gt: a > b,
